@@ -1943,6 +1943,10 @@ func (x *e2Ctx) arrayUse(al *ssa.Alloc) (string, string) {
 				dsts = append(dsts, f)
 			}
 		case *ssa.UnOp:
+			// whole-array load stored on (var xid [3]byte; ReadBytes(xid[:]); m.TransactionID = xid)
+			if f, _ := x.dstOf(t); f != "_" && f != "" && !strings.HasPrefix(f, "%") {
+				dsts = append(dsts, f)
+			}
 			// whole-array load: comparison with a constant/global (magic cookie)
 			for _, r2 := range *t.Referrers() {
 				if bo, ok := r2.(*ssa.BinOp); ok && (bo.Op == token.EQL || bo.Op == token.NEQ) {
